@@ -141,7 +141,11 @@ fn section_header_with_name<'sc>(
             // This can't be a match.
             continue;
         }
-        let n = module_memory.read(strtab_section_header.sh_offset + sh_name, name.len() as u64)?;
+        let Some(name_offset) = strtab_section_header.sh_offset.checked_add(sh_name) else {
+            log::warn!("invalid string table offset for {:?}", name);
+            continue;
+        };
+        let n = module_memory.read(name_offset, name.len() as u64)?;
         if name == &*n {
             return Ok(Some(header));
         }
@@ -424,9 +428,12 @@ impl<'buf> ModuleReader<'buf> {
         name_offset: u64,
     ) -> Result<String, Error> {
         assert!(name_offset < strtab_size);
-        let name = self
-            .module_memory
-            .read(strtab_offset + name_offset, strtab_size - name_offset)?;
+        let name = self.module_memory.read(
+            strtab_offset
+                .checked_add(name_offset)
+                .ok_or(Error::StrTabNoNulByte)?,
+            strtab_size - name_offset,
+        )?;
         CStr::from_bytes_until_nul(&name)
             .map(|s| s.to_string_lossy().into_owned())
             .map_err(|_| Error::StrTabNoNulByte)
